@@ -1,5 +1,267 @@
-//! C14 harness — to be written (see /verif/mc/HARNESS_GUIDE.md).
-fn main() {
-    eprintln!("MACHINERY-ERROR: harness C14 not built yet");
-    std::process::exit(2);
+//! C14 — PCA and truncated SVD yield orthonormal, variance-ordered, optimal projections.
+//!
+//! E1 over (data matrix, estimator / mode, k): every matrix of small lattices (both n > p, the SVD
+//! path of PCA, and n <= p, the covariance / EVD path) and every member of a deterministic structured
+//! family up to 80 x 8 (correlated columns, scales 1e-2..1e3, means up to 1e4, exact rank
+//! deficiency). The oracle is definition-level: Jacobi eigenvalues / singular values computed by
+//! `mc_core::oracle` from the raw data, orthonormality of the returned projection, first and second
+//! moments of the transformed training data, the affine-map formula evaluated by the harness.
+//! No RNG is involved in these estimators, so no `verif-hooks` seam is used.
+
+mod checks;
+mod gen;
+mod refs;
+
+use checks::{check_pca, check_tsvd};
+use mc_core::oracle::Mat;
+use mc_core::{self as mc, json, Harness, Job, Plan, Tier, Value};
+use std::cell::RefCell;
+
+struct C14;
+
+fn check(est: &str, x: &Mat, k: usize, family: &str) {
+    match est {
+        "cov" => check_pca(x, false, k, family),
+        "corr" => check_pca(x, true, k, family),
+        "tsvd" => check_tsvd(x, k, family),
+        other => panic!("unknown estimator {}", other),
+    }
 }
+
+// ------------------------------------------------------------------------------------------------
+// plan
+
+const ESTS: [&str; 3] = ["cov", "corr", "tsvd"];
+
+struct LatJob {
+    name: String,
+    alpha: Vec<f64>,
+    fixed: Vec<usize>,
+    est: String,
+}
+
+thread_local! {
+    static LAT: RefCell<Option<LatJob>> = RefCell::new(None);
+}
+
+/// VERIF_SEED selects one of 8 affine perturbations a·v + b of the lattice alphabet; the perturbed
+/// space is enumerated completely as well. Seed 0 is the plain alphabet.
+const PERTURB: [(f64, f64); 8] = [(1.0, 0.0), (1.0, 0.25), (3.0, 0.0), (1.0, -0.5), (0.1, 0.0), (7.0, 0.125), (1.0, 100.0), (1.0 / 3.0, 0.0)];
+
+fn alphabet(name: &str, seed: u64) -> Vec<f64> {
+    let base: &[f64] = match name {
+        "S4" => &[0.0, 1.0, -1.0, 3.0],
+        "S3" => &[0.0, 1.0, -1.0],
+        "B2" => &[0.0, 1.0],
+        _ => panic!("alphabet {}", name),
+    };
+    let (a, b) = PERTURB[(seed % 8) as usize];
+    base.iter().map(|v| a * v + b).collect()
+}
+
+fn lat_jobs(jobs: &mut Vec<(usize, Job)>, n: usize, p: usize, aname: &str, seed: u64, cap: u64) {
+    let alpha = alphabet(aname, seed);
+    let a = alpha.len() as u64;
+    let cells = n * p;
+    // fix the first d cells in the job so that a job has at most `cap` executions
+    let mut d = 0usize;
+    while a.pow((cells - d) as u32) * p as u64 > cap && d < cells {
+        d += 1;
+    }
+    let prefixes = a.pow(d as u32);
+    for est in ESTS {
+        for code in 0..prefixes {
+            // digits of `code` in base |alphabet|, first cell most significant
+            let mut fixed = vec![0usize; d];
+            let mut c = code;
+            for i in (0..d).rev() {
+                fixed[i] = (c % a) as usize;
+                c /= a;
+            }
+            let tag: String = fixed.iter().map(|i| i.to_string()).collect();
+            jobs.push((
+                cells * 16 + alpha.len(),
+                Job::new(
+                    format!("lat-{}-n{}p{}-{}{}{}", aname, n, p, est, if d > 0 { "-" } else { "" }, tag),
+                    json!({"kind": "lat", "n": n, "p": p, "est": est, "aname": aname, "alpha": alpha, "fixed": fixed}),
+                ),
+            ));
+        }
+    }
+}
+
+/// (n, p, alphabet) lattice configurations per tier.
+fn lattice_space(t: bool) -> Vec<(usize, usize, &'static str)> {
+    let mut v: Vec<(usize, usize, &'static str)> = Vec::new();
+    if !t {
+        for n in 2..=6 {
+            v.push((n, 1, "S4"));
+        }
+        for n in 2..=4 {
+            v.push((n, 2, "S4"));
+        }
+        v.push((5, 2, "S3"));
+        v.push((2, 3, "S4"));
+        v.push((3, 3, "S4"));
+        v.push((4, 3, "S3"));
+        v.push((2, 4, "S4"));
+        v.push((3, 4, "S3"));
+        v.push((5, 4, "B2"));
+    } else {
+        for n in 2..=8 {
+            v.push((n, 1, "S4"));
+        }
+        for n in 2..=5 {
+            v.push((n, 2, "S4"));
+        }
+        v.push((6, 2, "S3"));
+        v.push((7, 2, "S3"));
+        v.push((2, 3, "S4"));
+        v.push((3, 3, "S4"));
+        v.push((4, 3, "S4"));
+        v.push((5, 3, "S3"));
+        v.push((2, 4, "S4"));
+        v.push((3, 4, "S3"));
+        v.push((4, 4, "B2"));
+        v.push((5, 4, "B2"));
+        v.push((6, 4, "B2"));
+        v.push((2, 5, "S3"));
+        v.push((3, 5, "B2"));
+        v.push((4, 5, "B2"));
+        v.push((2, 6, "S3"));
+        v.push((3, 6, "B2"));
+    }
+    v
+}
+
+fn structured_sizes(t: bool) -> Vec<(usize, usize)> {
+    let mut v = Vec::new();
+    let ns: Vec<usize> = if t { (2..=80).collect() } else { vec![2, 3, 5, 8, 9, 17, 40, 80] };
+    for p in 1..=8usize {
+        for &n in &ns {
+            v.push((n, p));
+        }
+    }
+    v
+}
+
+impl Harness for C14 {
+    fn id(&self) -> &'static str {
+        "C14"
+    }
+
+    fn plan(&self, tier: Tier, seed: u64) -> Plan {
+        let t = tier.is_thorough();
+        let cap: u64 = if t { 2_500_000 } else { 300_000 };
+        let mut jobs: Vec<(usize, Job)> = Vec::new();
+        let space = lattice_space(t);
+        for (n, p, a) in &space {
+            lat_jobs(&mut jobs, *n, *p, a, seed, cap);
+        }
+        for (n, p) in structured_sizes(t) {
+            // interleave the structured jobs early (they are small) but after the tiniest lattices
+            jobs.push((100 + n * p / 8, Job::new(format!("str-n{}p{}", n, p), json!({"kind": "str", "n": n, "p": p, "rot": seed}))));
+        }
+        jobs.sort_by_key(|(w, _)| *w);
+        let jobs: Vec<Job> = jobs.into_iter().map(|(_, j)| j).collect();
+        let lattice_desc: Vec<String> = space.iter().map(|(n, p, a)| format!("{}x{} over {:?}", n, p, alphabet(a, seed))).collect();
+        Plan {
+            jobs,
+            budget_s: if t { 2700 } else { 40 },
+            case_deadline_ms: 20_000,
+            floors: vec![
+                ("pca_svd_path", 10_000),
+                ("pca_evd_path", 10_000),
+                ("pca_corr_mode", 10_000),
+                ("pca_n_le_p", 5_000),
+                ("pca_rank_deficient", 5_000),
+                ("pca_zero_variance", 10),
+                ("pca_eigenvalue_tie_at_cut", 100),
+                ("pca_large_mean", 500),
+                ("tsvd_fits", 10_000),
+                ("tsvd_n_lt_p", 1_000),
+                ("tsvd_rank_deficient", 1_000),
+                ("tsvd_singular_value_tie_at_cut", 100),
+                ("tsvd_k_eq_p_rejected", 1_000),
+                ("structured_cases", 1_000),
+            ],
+            bounds: json!({
+                "lattices": format!("every n x p matrix over the alphabet, for: {}; x {{PCA covariance, PCA correlation: every k in 1..=p; truncated SVD: every k in 1..p and k = p (must be Err)}}; constant columns are outside the statement in correlation mode (skipped, counted)", lattice_desc.join("; ")),
+                "structured": format!("n in {}, p in 1..=8: every (rank structure in {{1,2,p-1,p latent integer factors, exact duplicate column, constant column}}) x (4 column-scale profiles: unit, 2^-7..2^10, 1e-2..1e3, alternating 1e3/1e-2) x (3 mean profiles: 0, +1e4, mixed up to 1e4) x 3 estimators x every k", if t { "2..=80 (every n)" } else { "{2,3,5,8,9,17,40,80}" }),
+                "seed": format!("VERIF_SEED mod 8 selects the affine perturbation a*v+b of the lattice alphabets (here a={}, b={}) and rotates the structured generator's weights", PERTURB[(seed % 8) as usize].0, PERTURB[(seed % 8) as usize].1),
+                "element_type": "f64, DenseMatrix",
+            }),
+        }
+    }
+
+    fn run(&self, job: &Job) {
+        let (n, p) = (job.u("n"), job.u("p"));
+        match job.kind() {
+            "lat" => {
+                // decoded job parameters are memoised per job (pure function of the job)
+                LAT.with(|l| {
+                    let mut l = l.borrow_mut();
+                    if l.as_ref().map(|d| d.name != job.name).unwrap_or(true) {
+                        *l = Some(LatJob {
+                            name: job.name.clone(),
+                            alpha: job.params["alpha"].as_array().expect("alpha").iter().map(|v| v.as_f64().unwrap()).collect(),
+                            fixed: job.params["fixed"].as_array().expect("fixed").iter().map(|v| v.as_u64().unwrap() as usize).collect(),
+                            est: job.s("est").to_string(),
+                        });
+                    }
+                });
+                let (x, est) = LAT.with(|l| {
+                    let l = l.borrow();
+                    let d = l.as_ref().unwrap();
+                    let mut x = vec![vec![0.0; p]; n];
+                    for e in 0..n * p {
+                        let idx = if e < d.fixed.len() { d.fixed[e] } else { mc::choose(d.alpha.len()) };
+                        x[e / p][e % p] = d.alpha[idx];
+                    }
+                    let est: &'static str = ESTS.iter().find(|e| **e == d.est).expect("estimator");
+                    (x, est)
+                });
+                let k = 1 + mc::choose(p);
+                check(est, &x, k, "lattice");
+            }
+            "str" => {
+                let rot = job.u("rot");
+                let sts = gen::structures(p);
+                let st = sts[mc::choose(sts.len())];
+                let sv = mc::choose(gen::N_SCALES);
+                let mv = mc::choose(gen::N_MEANS);
+                let est = mc::pick(&ESTS);
+                let k = 1 + mc::choose(p);
+                let x = gen::structured(n, p, st, sv, mv, rot);
+                mc::count("structured_cases");
+                let fam = format!("structured {:?}, scales {}, means {}, rot {}", st, gen::scale_name(sv), gen::mean_name(mv), rot);
+                check(est, &x, k, &fam);
+            }
+            other => panic!("unknown job kind {}", other),
+        }
+    }
+
+    fn rule(&self) -> String {
+        "one execution = one (data matrix, estimator/mode, k); non-trivial when the fit returned a model and the data have non-zero total variance (PCA) / non-zero Frobenius norm (truncated SVD); distinct = distinct bit-exact digest of the returned components and transformed training data".into()
+    }
+
+    fn assumptions(&self) -> Vec<String> {
+        vec![
+            "PCA and truncated SVD draw no random numbers (no RNG seam on this path); the RNG call sites of /repo/src equal /verif/rng_sites.allow (checked at start-up)".into(),
+            "in correlation mode the statement's 'standardised data' may use either the population or the sample standard deviation; whichever makes D*P orthonormal is accepted".into(),
+            "f64 and DenseMatrix only; other backends are C20's subject".into(),
+            "tolerances: orthonormality 64*p*eps; moments 1e-9*trace plus the rounding floor 64*eps*sum(|x|+|mu|)|P| of evaluating the affine map itself".into(),
+        ]
+    }
+}
+
+fn main() {
+    if let Err(e) = mc_sc::check_rng_sites() {
+        eprintln!("MACHINERY-ERROR: {}", e);
+        std::process::exit(2);
+    }
+    mc::main(C14)
+}
+
+#[allow(dead_code)]
+fn _v(_: Value) {}
